@@ -122,6 +122,8 @@ type WorkerOut struct {
 	DistinctN       int               `json:"distinct"`
 	DistinctKeys    []string          `json:"distinct_keys,omitempty"`
 	Extra           map[string]int64  `json:"extra"`
+	Survey          map[string]int    `json:"survey,omitempty"`
+	SurveyMsg       map[string]string `json:"survey_msg,omitempty"`
 	Probes          map[string]int    `json:"probes"`
 	Faults          map[string]int    `json:"faults_fired"`
 	PerFamily       map[string]int    `json:"per_family"`
@@ -209,6 +211,8 @@ func TestWorker(t *testing.T) {
 	}
 	out := &WorkerOut{Property: prop, Worker: worker, Seed: seed, Distinct: map[string]int{}, Probes: map[string]int{}, Faults: map[string]int{}, PerFamily: map[string]int{}, PerClass: map[string]int{}, Known: map[string]int{}, KnownWhat: map[string]string{}, KindCount: map[string]int64{}, Extra: map[string]int64{}}
 	start := time.Now()
+	survey := os.Getenv("VERIF_SURVEY") != ""
+	out.Survey, out.SurveyMsg = map[string]int{}, map[string]string{}
 	seenFP := map[string]bool{}
 	minimiseBudget := time.Duration(envInt("VERIF_MINIMISE_S", 15)) * time.Second
 	for run := 0; run < maxRuns && time.Since(start) < budget; run++ {
@@ -218,7 +222,16 @@ func TestWorker(t *testing.T) {
 		g := &Gen{R: r.Fork(), Tier: tier, Prop: prop}
 		base := fam.Gen(g)
 		scs := []*Scn{base}
-		if fam.Expand != nil {
+		if fam.ExpandRun != nil {
+			zero := SchedSpec{Strategy: "replay"}
+			scs = fam.ExpandRun(base, func(sc *Scn) *RunResult {
+				wdRunStart = time.Now().UnixNano()
+				defer func() { wdRunStart = 0 }()
+				return RunOnce(t, fam, sc, &zero, false)
+			})
+			out.Extra["enumerated_scenarios"]++
+			out.Extra["enumerated_fault_positions"] += int64(len(scs))
+		} else if fam.Expand != nil {
 			scs = fam.Expand(base)
 			out.Extra["enumerated_scenarios"]++
 			out.Extra["enumerated_fault_positions"] += int64(len(scs))
@@ -288,6 +301,14 @@ func TestWorker(t *testing.T) {
 				if kf := matchKnown(known, v); kf != nil {
 					out.Known[kf.ID]++
 					out.KnownWhat[kf.ID] = kf.What
+					continue
+				}
+				if survey {
+					out.Survey[v.FP]++
+					if _, ok := out.SurveyMsg[v.FP]; !ok {
+						b, _ := json.Marshal(sc)
+						out.SurveyMsg[v.FP] = v.Msg + " || " + string(b)
+					}
 					continue
 				}
 				if seenFP[v.FP] {
@@ -474,8 +495,7 @@ func minimise(t *testing.T, fam *Family, rf *ReplayFile, known []KnownFinding, b
 }
 
 // shrinkCandidates proposes smaller scenarios (generic, plus the family's own).
-func shrinkCandidates(fam *Family, sc *Scn) []*Scn {
-	var out []*Scn
+func shrinkCandidates(fam *Family, sc *Scn) (out []*Scn) {
 	if fam.Shrink != nil {
 		out = append(out, fam.Shrink(sc)...)
 	}
@@ -529,6 +549,17 @@ func shrinkCandidates(fam *Family, sc *Scn) []*Scn {
 			out = append(out, c)
 		}
 	}
+	defer func() {
+		if fam.Valid != nil {
+			kept := out[:0]
+			for _, c := range out {
+				if fam.Valid(c) {
+					kept = append(kept, c)
+				}
+			}
+			out = kept
+		}
+	}()
 	names := make([]string, 0, len(sc.Ints))
 	for k := range sc.Ints {
 		names = append(names, k)
